@@ -63,9 +63,24 @@ def _all():
             yield {"fam": "ctor", "alts": list(combo)}
     for a, b in itertools.combinations(alts2(), 2):
         yield {"fam": "ctor", "alts": [a, b], "two": True}
+    # alternatives over different variables always share behaviours; alternatives far from the origin
+    Ao = alts1("o")
+    for a in A[:6] + A[-3:]:
+        for b in Ao[:6] + Ao[-3:]:
+            yield {"fam": "ctor", "alts": [a, b], "mixed": True}
+            yield {"fam": "ctor", "alts": [a, interval("i", 5, 6), b], "mixed": True}
     for n in (1, 2):
         for combo in itertools.combinations(A, n):
             yield {"fam": "member", "alts": list(combo)}
+    # <= with a large unrelated constant in the left alternative, overshooting a right facet by a little more than the tolerance
+    for d in (0.0005, 0.004, 0.05):
+        for big in ([{"o": -1}, 900], [{"o": 5, "i": 1}, 9000]):
+            yield {"fam": "le", "L": [[[{"i": 1}, d], big]], "R": [[[{"i": 1}, 0]]]}
+            yield {"fam": "le", "L": [[[{"i": 1}, d], big], interval("i", 2, 3)], "R": [[[{"i": 1}, 0]], interval("i", 2, 3)]}
+    # sequences of merges whose intersections print alike
+    for a, d in ((1.2, 0.0004), (1200, 0.45), (10, 0.001)):
+        yield {"fam": "mergeseq", "seq": [[interval("o", None, a), interval("o", a + d, None)], [interval("o", None, a + d), interval("o", a - d, None)]]}
+        yield {"fam": "mergeseq", "seq": [[interval("o", None, a + d), interval("o", a - d, None)], [interval("o", None, a), interval("o", a + d, None)]]}
     lists = [list(c) for n in (1, 2) for c in itertools.combinations(A[::2], n)]
     for L in lists:
         for R in lists:
@@ -203,6 +218,15 @@ def run_case(case):
             if w is not None:
                 viol = {"sub": "le", "what": "<= answered True but the left union is not contained in the right union", "witness": O.ptjson(w)}
         return [("le:%s" % got, len(rl) + len(rr) >= 3, None, viol)]
+    if fam == "mergeseq":
+        for k, (g1, g2) in enumerate(case["seq"]):
+            r = run_case({"fam": "merge", "a1": [interval("i", 0, 1)], "g1": [g1], "a2": [interval("i", 0, 2)], "g2": [g2]})
+            for x in r:
+                viol = x[3]
+                if viol is not None:
+                    viol = dict(viol, sub="seq#%d" % k, what="merge %d of a sequence of look-alike merges: %s" % (k, viol["what"]))
+                out.append((x[0], True, None, viol) + tuple(x[4:]))
+        return out
     if fam == "merge":
         from pacti.contracts import PolyhedralIoContractCompound
 
